@@ -1128,3 +1128,10 @@ r10("C16", "r19-holdsdata-nil-test", "C16-j2", "C16-R19|container.(*Container).H
 r10("C17", "r13-copy-drops-tempdir", "C17-j1", "C17-R13|utils.CopyFileAtomic")
 r10("C18", "r9-bridge-prefix-without-separator", "C18-j2", "C18-R9|")
 r10("C19", "r22-export-shares-version-list", "C19-j1", "C19-R22|")
+
+mut("C11", "r10-empty-token-printed-bare", "database/query/parser.go",
+    "\t// an empty token has to be quoted to be a token at all\n\tif token == \"\" {\n\t\treturn `\"\"`\n\t}\n", "",
+    "C11-R10|database/query.escapeString", comment="reverts fix a88831c")
+mut("C11", "r10-two-quotes-for-short-tokens", "database/query/parser.go",
+    "\tif token == \"\" {\n\t\treturn `\"\"`\n\t}\n", "\tif len(token) <= 1 {\n\t\treturn `\"\"`\n\t}\n",
+    "C11-R10|database/query.escapeString", comment="the empty-token form returned for a non-empty token")
